@@ -581,3 +581,252 @@ Proof.
       + inversion Hnr; assumption. }
   rewrite (flat_cycles _ _ _ _ _ _ _ (clear_log_ok _ Hw0) F Hs Hnw Cy k c Hk). lia.
 Qed.
+
+(* ================================================================== Doist.ado: AsyncTimer over the loop clock *)
+
+Notation zatimer := (@atimer Z).
+
+Definition ane_inv (tm : zatimer) (w : zworld) (M : Z) : Prop :=
+  exists ol, now w - mono w <= ol /\ M <= a_stop tm - ol.
+
+Lemma ane_advance : forall tm w M s, step_ok s -> ane_inv tm w M -> ane_inv tm (advance w s) M.
+Proof.
+  intros tm w M s Hs [ol [A B]]. destruct (advance_facts w s Hs) as [_ [F2 _]]. exists ol. split; lia.
+Qed.
+
+Lemma ane_sleep : forall tm w M d, world_ok w -> 0 <= d -> ane_inv tm w M -> ane_inv tm (sleep w d) M.
+Proof.
+  intros tm w M d Hw Hd [ol [A B]]. destruct (sleep_facts w d Hw Hd) as [_ [_ [F2 _]]]. exists ol. split; lia.
+Qed.
+
+Lemma ane_read : forall tm w w' r M, world_ok w -> ane_inv tm w M -> read w = (r, w') ->
+  world_ok w' /\ ane_inv tm w' M /\ mono w <= mono w' /\ r = now w' /\ (a_stop tm <= r -> M <= mono w').
+Proof.
+  intros tm w w' r M Hw [ol [A B]] R.
+  destruct (read_log _ _ _ R) as [Rn _]. destruct (read_facts _ _ _ Hw R) as [Hw' [Mm Off]].
+  rsplit; try assumption; try lia. exists ol. split; lia.
+Qed.
+
+Lemma ane_await : forall fuel (tm : zatimer) w acc M w' sl,
+  world_ok w -> ane_inv tm w M -> await fuel tm w acc = Some (w', sl) ->
+  world_ok w' /\ ane_inv tm w' M /\ M <= mono w' /\ mono w <= mono w'.
+Proof.
+  induction fuel as [|f IH]; intros tm w acc M w' sl Hw Hi E; [discriminate|].
+  cbn [await] in E. destruct (read w) as [r1 w1] eqn:R1.
+  destruct (ane_read _ _ _ _ _ Hw Hi R1) as [Hw1 [Hi1 [Mo1 [E1 X1]]]].
+  tz. destruct (a_stop tm <=? r1) eqn:X.
+  - inversion E; subst w1 sl. rsplit; try assumption. apply X1. lia.
+  - destruct (read w1) as [r2 w2] eqn:R2.
+    destruct (ane_read _ _ _ _ _ Hw1 Hi1 R2) as [Hw2 [Hi2 [Mo2 _]]].
+    pose proof (max0_nonneg (a_stop tm - r2)) as Hd.
+    destruct (sleep_facts w2 _ Hw2 Hd) as [Hw3 [Mo3 _]].
+    apply (ane_sleep _ _ _ _ Hw2 Hd) in Hi2.
+    destruct (IH _ _ _ _ _ _ Hw3 Hi2 E) as [Q1 [Q2 [Q3 Q4]]]. rsplit; try assumption. lia.
+Qed.
+
+Lemma ane_restart : forall tm w M, ane_inv tm w M -> ane_inv (atimer_restart tm) w (M + (a_stop tm - a_start tm)).
+Proof. intros tm w M [ol [A B]]. exists ol. unfold atimer_restart. cbn. tz. split; lia. Qed.
+
+Lemma atimer_restart_fields : forall tm : zatimer,
+  a_stop (atimer_restart tm) - a_start (atimer_restart tm) = a_stop tm - a_start tm /\
+  a_stop (atimer_restart tm) = a_stop tm + (a_stop tm - a_start tm).
+Proof. intros tm. unfold atimer_restart. cbn. tz. lia. Qed.
+
+Lemma ane_acycles : forall works fuel tm w M d cs tmf wf,
+  world_ok w -> Forall step_ok works -> ane_inv tm w M ->
+  a_stop tm - a_start tm = d -> M - d <= mono w ->
+  acycles fuel tm w works = Some (cs, tmf, wf) ->
+  world_ok wf /\
+  (forall k c, nth_error cs k = Some c -> M - d + Z.of_nat k * d <= c_mono c) /\
+  M - d + Z.of_nat (length works) * d <= mono wf /\ length cs = length works.
+Proof.
+  induction works as [|wk rest IH]; intros fuel tm w M d cs tmf wf Hw Hs Hi Hd Hm E.
+  - cbn in E. inversion E; subst. rsplit; try assumption; try (cbn; lia).
+    intros k c Hk. destruct k; discriminate.
+  - cbn [acycles] in E. inversion Hs as [|? ? Hwk Hrest]; subst.
+    destruct (await fuel tm (advance w wk) []) as [[w1 sl]|] eqn:W; [|discriminate].
+    destruct (acycles fuel (atimer_restart tm) w1 rest) as [[[cs' tmf'] wf']|] eqn:C; [|discriminate].
+    inversion E; subst. clear E.
+    pose proof (advance_ok w wk Hw) as Hwa.
+    pose proof (ane_advance _ _ _ _ Hwk Hi) as Hia.
+    destruct (advance_facts w wk Hwk) as [Ma _].
+    destruct (ane_await _ _ _ _ _ _ _ Hwa Hia W) as [Hw1 [Hi1 [HM Mo]]].
+    pose proof (ane_restart _ _ _ Hi1) as Hir.
+    destruct (atimer_restart_fields tm) as [Hdr _].
+    destruct (IH fuel (atimer_restart tm) w1 (M + (a_stop tm - a_start tm)) (a_stop tm - a_start tm) cs' tmf wf
+                 Hw1 Hrest Hir Hdr ltac:(lia) C) as [Hwf [Hk [He Hl]]].
+    rsplit; try assumption.
+    + intros k c Hkc. destruct k as [|k].
+      * cbn in Hkc. inversion Hkc; subst. cbn. lia.
+      * cbn in Hkc. specialize (Hk k c Hkc). lia.
+    + cbn [length]. lia.
+    + cbn [length]. lia.
+Qed.
+
+(* ado's run start: AsyncTimer(duration=tock) then .start(): two loop-clock readings, the second is the start *)
+Lemma ado_start_spec : forall tock (w w0 w1 : zworld) tm0 tm1,
+  atimer_init tock w = (tm0, w0) -> atimer_start tm0 w0 = (tm1, w1) ->
+  exists r0 r1, read w = (r0, w0) /\ read w0 = (r1, w1) /\ a_start tm1 = r1 /\ a_stop tm1 = r1 + tock.
+Proof.
+  intros tock w w0 w1 tm0 tm1 I S. unfold atimer_init in I. unfold atimer_start in S.
+  destruct (read w) as [r0 w0'] eqn:R0. inversion I; subst. clear I. cbn [a_start a_stop] in S. tz.
+  destruct (read w0) as [r1 w1'] eqn:R1. inversion S; subst. clear S.
+  exists r0, r1. cbn. tz. rsplit; try reflexivity; lia.
+Qed.
+
+Theorem ado_real_not_early : forall fuel tock (w : zworld) works out wf,
+  world_ok w -> Forall step_ok works ->
+  ado_real fuel tock w works = Some (out, wf) ->
+  world_ok wf /\
+  (forall k c, nth_error (r_cycles out) k = Some c -> r_mono out + Z.of_nat k * tock <= c_mono c) /\
+  r_mono out + Z.of_nat (length works) * tock <= r_end_mono out /\
+  length (r_cycles out) = length works.
+Proof.
+  intros fuel tock w works out wf Hw Hs E. unfold ado_real in E.
+  destruct (atimer_init tock w) as [tm0 w0] eqn:I. destruct (atimer_start tm0 w0) as [tm1 w1] eqn:S.
+  destruct (ado_start_spec _ _ _ _ _ _ I S) as [r0 [r1 [R0 [R1 [A B]]]]].
+  destruct (read_facts _ _ _ Hw R0) as [Hw0 _]. destruct (read_facts _ _ _ Hw0 R1) as [Hw1 _].
+  destruct (read_log _ _ _ R1) as [Rn _].
+  destruct (acycles fuel tm1 (clear_log w1) works) as [[[cs tmf] wf']|] eqn:Cy; [|discriminate].
+  inversion E; subst. clear E. cbn [r_cycles r_mono r_end_mono].
+  destruct (clear_log_fields w1) as [F1 [F2 _]].
+  assert (Hi : ane_inv tm1 (clear_log w1) (mono w1 + tock)).
+  { exists (now w1 - mono w1). rewrite F1, F2. split; lia. }
+  destruct (ane_acycles works fuel tm1 (clear_log w1) (mono w1 + tock) tock cs tmf wf
+              (clear_log_ok _ Hw1) Hs Hi ltac:(lia) ltac:(rewrite F2; lia) Cy) as [Hwf [Hk [He Hl]]].
+  rsplit; try assumption.
+  - intros k c Hkc. specialize (Hk k c Hkc). lia.
+  - lia.
+Qed.
+
+(* deadlines: exactly start + (k+1) tocks, whatever the environment does (there is nothing that shifts them) *)
+Lemma all_acycles : forall works fuel (tm : zatimer) w d cs tmf wf,
+  a_stop tm - a_start tm = d ->
+  acycles fuel tm w works = Some (cs, tmf, wf) ->
+  forall k c, nth_error cs k = Some c -> c_stop c = a_stop tm + Z.of_nat k * d.
+Proof.
+  induction works as [|wk rest IH]; intros fuel tm w d cs tmf wf Hd E k c Hk.
+  - cbn in E. inversion E; subst. destruct k; discriminate.
+  - cbn [acycles] in E.
+    destruct (await fuel tm (advance w wk) []) as [[w1 sl]|] eqn:W; [|discriminate].
+    destruct (acycles fuel (atimer_restart tm) w1 rest) as [[[cs' tmf'] wf']|] eqn:C; [|discriminate].
+    inversion E; subst. clear E.
+    destruct (atimer_restart_fields tm) as [Hdr Hst].
+    destruct k as [|k].
+    + cbn in Hk. inversion Hk; subst. cbn. lia.
+    + cbn in Hk. rewrite (IH fuel (atimer_restart tm) w1 _ cs' tmf wf Hdr C k c Hk). lia.
+Qed.
+
+Theorem ado_real_lossless : forall fuel tock (w : zworld) works out wf,
+  ado_real fuel tock w works = Some (out, wf) ->
+  forall k c, nth_error (r_cycles out) k = Some c ->
+    c_stop c = r_now out + (Z.of_nat k + 1) * tock.
+Proof.
+  intros fuel tock w works out wf E k c Hk. unfold ado_real in E.
+  destruct (atimer_init tock w) as [tm0 w0] eqn:I. destruct (atimer_start tm0 w0) as [tm1 w1] eqn:S.
+  destruct (ado_start_spec _ _ _ _ _ _ I S) as [r0 [r1 [R0 [R1 [A B]]]]].
+  destruct (read_log _ _ _ R1) as [Rn _].
+  destruct (acycles fuel tm1 (clear_log w1) works) as [[[cs tmf] wf']|] eqn:Cy; [|discriminate].
+  inversion E; subst out wf'. clear E. cbn [r_cycles r_now] in *.
+  rewrite (all_acycles works fuel tm1 (clear_log w1) tock cs tmf wf ltac:(lia) Cy k c Hk).
+  lia.
+Qed.
+
+(* the await loop ends *)
+Lemma await_ends : forall fuel (tm : zatimer) w acc,
+  world_ok w ->
+  (a_stop tm <= now w /\ (2 * bad w < fuel)%nat) \/ (2 * bad w + 1 < fuel)%nat ->
+  await fuel tm w acc <> None.
+Proof.
+  induction fuel as [|f IH]; intros tm w acc Hw H; [destruct H as [[_ H]|H]; lia|].
+  cbn [await]. destruct (read w) as [r1 w1] eqn:R1.
+  destruct (read_facts _ _ _ Hw R1) as [Hw1 _]. destruct (read_cases _ _ _ Hw R1) as [_ [E1 [B1 C1]]].
+  tz. destruct (a_stop tm <=? r1) eqn:X; [discriminate|].
+  assert (F : (2 * bad w1 < f)%nat).
+  { destruct H as [[R H]|H]; [|lia]. destruct C1 as [C1|C1]; lia. }
+  destruct (read w1) as [r2 w2] eqn:R2.
+  destruct (read_facts _ _ _ Hw1 R2) as [Hw2 _]. destruct (read_cases _ _ _ Hw1 R2) as [_ [E2 [B2 C2]]].
+  pose proof (max0_nonneg (a_stop tm - r2)) as Hd.
+  assert (Hd2 : a_stop tm - r2 <= max0 (a_stop tm - r2)).
+  { unfold max0. tz. destruct (0 <? a_stop tm - r2) eqn:Y; lia. }
+  destruct (sleep_facts w2 _ Hw2 Hd) as [Hw3 _].
+  destruct (sleep_cases w2 _ Hw2 Hd) as [B3 C3].
+  apply IH; [assumption|].
+  destruct C3 as [C3|C3]; [left; split; lia|right; lia].
+Qed.
+
+Lemma await_world : forall fuel (tm : zatimer) w acc w' sl,
+  world_ok w -> await fuel tm w acc = Some (w', sl) -> world_ok w' /\ (bad w' <= bad w)%nat.
+Proof.
+  induction fuel as [|f IH]; intros tm w acc w' sl Hw E; [discriminate|].
+  cbn [await] in E. destruct (read w) as [r1 w1] eqn:R1.
+  destruct (read_facts _ _ _ Hw R1) as [Hw1 _]. destruct (read_cases _ _ _ Hw R1) as [_ [_ [B1 _]]].
+  destruct (tleb (a_stop tm) r1).
+  - inversion E; subst. split; assumption.
+  - destruct (read w1) as [r2 w2] eqn:R2.
+    destruct (read_facts _ _ _ Hw1 R2) as [Hw2 _]. destruct (read_cases _ _ _ Hw1 R2) as [_ [_ [B2 _]]].
+    tz. pose proof (max0_nonneg (a_stop tm - r2)) as Hd.
+    destruct (sleep_facts w2 _ Hw2 Hd) as [Hw3 _]. destruct (sleep_cases w2 _ Hw2 Hd) as [B3 _].
+    destruct (IH _ _ _ _ _ Hw3 E) as [Q1 Q2]. split; [assumption|lia].
+Qed.
+
+Lemma acycles_ends : forall works fuel (tm : zatimer) w,
+  world_ok w -> Forall step_ok works -> (2 * bad w + 1 < fuel)%nat ->
+  acycles fuel tm w works <> None.
+Proof.
+  induction works as [|wk rest IH]; intros fuel tm w Hw Hs F; [discriminate|].
+  cbn [acycles]. inversion Hs as [|? ? Hwk Hrest]; subst.
+  pose proof (advance_ok w wk Hw) as Hwa.
+  destruct (await fuel tm (advance w wk) []) as [[w1 sl]|] eqn:W.
+  - destruct (await_world _ _ _ _ _ _ Hwa W) as [Hw1 B1]. rewrite advance_bad in B1.
+    specialize (IH fuel (atimer_restart tm) w1 Hw1 Hrest ltac:(lia)).
+    destruct (acycles fuel (atimer_restart tm) w1 rest) as [[[cs tmf] wf]|]; [discriminate|contradiction].
+  - exfalso. apply (await_ends fuel tm (advance w wk) [] Hwa); [right; rewrite advance_bad; lia|exact W].
+Qed.
+
+Theorem ado_real_ends : forall fuel tock (w : zworld) works,
+  world_ok w -> Forall step_ok works -> (2 * bad w + 1 < fuel)%nat ->
+  exists out wf, ado_real fuel tock w works = Some (out, wf).
+Proof.
+  intros fuel tock w works Hw Hs F. unfold ado_real.
+  destruct (atimer_init tock w) as [tm0 w0] eqn:I. destruct (atimer_start tm0 w0) as [tm1 w1] eqn:S.
+  destruct (ado_start_spec _ _ _ _ _ _ I S) as [r0 [r1 [R0 [R1 _]]]].
+  destruct (read_facts _ _ _ Hw R0) as [Hw0 _]. destruct (read_cases _ _ _ Hw R0) as [_ [_ [B0 _]]].
+  destruct (read_facts _ _ _ Hw0 R1) as [Hw1 _]. destruct (read_cases _ _ _ Hw0 R1) as [_ [_ [B1 _]]].
+  pose proof (acycles_ends works fuel tm1 (clear_log w1) (clear_log_ok _ Hw1) Hs) as C.
+  assert (Bc : bad (clear_log w1) = bad w1) by reflexivity.
+  specialize (C ltac:(lia)).
+  destruct (acycles fuel tm1 (clear_log w1) works) as [[[cs tmf] wf]|]; [|contradiction].
+  eexists _, _. reflexivity.
+Qed.
+
+(* sessions of ado() runs *)
+Definition ado_exact_run (tock : Z) (o : @run_out Z) : Prop :=
+  forall k c, nth_error (r_cycles o) k = Some c -> c_stop c = r_now o + (Z.of_nat k + 1) * tock.
+
+Lemma asession_runs : forall runs fuel tock (w : zworld) outs,
+  world_ok w -> Forall run_ok runs ->
+  asession fuel tock w runs = Some outs ->
+  Forall2 (fun t o => not_early_run t o /\ ado_exact_run t o) (eff_tocks tock runs) outs.
+Proof.
+  induction runs as [|r rest IH]; intros fuel tock w outs Hw Hr E.
+  - cbn in E. inversion E; subst. constructor.
+  - cbn [asession] in E. inversion Hr as [|? ? [Hpre Hworks] Hrest]; subst.
+    set (t := match i_tock r with Some x => x | None => tock end) in *.
+    destruct (ado_real fuel t (advance w (i_pre r)) (i_works r)) as [[o w1]|] eqn:D; [|discriminate].
+    destruct (asession fuel t w1 rest) as [os|] eqn:S; [|discriminate].
+    inversion E; subst. clear E.
+    destruct (ado_real_not_early _ _ _ _ _ _ (advance_ok _ _ Hw) Hworks D) as [Hw1 [Hk [He Hl]]].
+    cbn [eff_tocks]. fold t. constructor.
+    + split; [split; [assumption|rewrite Hl; exact He]|exact (ado_real_lossless _ _ _ _ _ _ D)].
+    + exact (IH _ _ _ _ Hw1 Hrest S).
+Qed.
+
+Theorem aplay_runs : forall fuel t0 tock0 rs os runs outs,
+  Forall step_ok rs -> Forall slp_ok os -> Forall run_ok runs ->
+  aplay fuel t0 tock0 rs os runs = Some outs ->
+  Forall2 (fun t o => not_early_run t o /\ ado_exact_run t o) (eff_tocks tock0 runs) outs.
+Proof.
+  intros fuel t0 tock0 rs os runs outs Hr Ho Hruns E. unfold aplay in E.
+  refine (asession_runs _ _ _ _ _ _ Hruns E). split; assumption.
+Qed.
